@@ -42,9 +42,12 @@ impl<'a, T: VecData<T> + 'a, C: Comparator<T> + fmt::Debug> VecOperator<'a> for 
         }
 
         assert!(indices.len() == indices.capacity() || input.is_empty());
-        for (i, &key) in input.iter().enumerate() {
-            if C::cmp(key, keys[0]) {
-                heap_replace::<_, C>(&mut keys, &mut indices, key, self.last_index + i, 0);
+        // With n == 0 (e.g. LIMIT 0) the heap is empty: there is no root to compare with and nothing is kept.
+        if self.n > 0 {
+            for (i, &key) in input.iter().enumerate() {
+                if C::cmp(key, keys[0]) {
+                    heap_replace::<_, C>(&mut keys, &mut indices, key, self.last_index + i, 0);
+                }
             }
         }
         self.last_index += input.len();
